@@ -42,7 +42,10 @@ TOK = ['a', 'A', 'and', 'a(', 'and(', 'not(', 'var(', 'rgb(', 'calc(', 'url(', '
        # identifiers that *are* a delimiter once their escape is decoded
        '\\7d ', '\\7b ', '\\3b ', '\\28 ', '\\22 ',
        # a namespace prefix that holds an escaped pipe; an escaped pipe on its own
-       'a\\|b|', 'a\\7c b|', '\\|']
+       'a\\|b|', 'a\\7c b|', '\\|',
+       # at-rules that are almost an @charset rule (the exact form is '@charset "name";'): whatever is kept of them must not be
+       # written as a charset rule the next parse trips over
+       '@charset"x";', '@CHARSET "x";', '@charset "x"']
 CORE = ['\\D800 ', '\\7d ', 'a', 'a(', 'and(', 'var(', 'rgb(', 'calc(', 'url(', '@x', '@media', '@import', '@charset ', '{', '}', '(', ')', '[', ';', ':', ',', '!',
         '"s"', '"u', '1px', '#f00', '/*c*/', '/*', '<!--', ' ', '\\', '*']
 CORE4 = ['a', 'a(', 'var(', 'calc(', 'url(', '@x', '@media', '{', '}', '(', ')', '[', ';', ':', ',', '!', '"u', '1px', '/*c*/', '/*']
